@@ -329,7 +329,12 @@ def check_shape(params):
                         continue
                     if a.kind != "num":
                         continue
-                    r, model = sr.prove(pc, a.value.num * b.value.den == b.value.num * a.value.den)
+                    goal = a.value.num * b.value.den == b.value.num * a.value.den
+                    r, model = sr.prove(pc, goal)
+                    if r == "unknown":
+                        # sums of several quotients: match the quotients of the two runs pairwise first
+                        lem = sr.quotient_lemmas(pc, a.quotients, b.quotients)
+                        r, model = sr.prove(pc + lem, goal)
                     if r == "sat":
                         cex.append(dict(check=name, shape=params["shape"], counts=_model_counts(case, model),
                                         leaf="num",
